@@ -155,7 +155,39 @@ func (g *c09Gen) actor(depth int) int {
 }
 
 // GenC09 draws a program from the tape.
-func GenC09(tape *Tape, allowSleep bool) *C09Prog {
+func GenC09(tape *Tape, allowSleep bool) *C09Prog { return GenC09Imp(tape, allowSleep, false) }
+
+// C09DepSrc is a source package imported by some programs (EvalPathWithContext
+// only): its variable initialiser and init function execute operations while the
+// importing program is still being compiled.
+const C09DepSrc = `package dep
+
+import "verif/sim/host"
+
+func slow(n int) int {
+	s := 0
+	for i := 0; i < n; i++ {
+		s += host.TickR(710)
+	}
+	return s
+}
+
+var V = slow(3)
+
+func init() {
+	for i := 0; i < 2; i++ {
+		host.Tick(711)
+	}
+}
+
+func F(x int) int {
+	host.Tick(712)
+	return x + V*0
+}
+`
+
+// GenC09Imp is GenC09 with an optional source import.
+func GenC09Imp(tape *Tape, allowSleep, withImport bool) *C09Prog {
 	g := &c09Gen{tape: tape, allowSleep: allowSleep, bodyOf: map[int]int{}}
 	initKind := tape.Choose(4)
 	root := g.actor(0)
@@ -163,6 +195,9 @@ func GenC09(tape *Tape, allowSleep bool) *C09Prog {
 	src.WriteString("package main\n\nimport (\n")
 	if g.sleeps {
 		src.WriteString("\t\"time\"\n")
+	}
+	if withImport {
+		src.WriteString("\t\"dep\"\n")
 	}
 	src.WriteString("\t\"verif/sim/host\"\n)\n\n")
 	if initKind&1 != 0 {
@@ -172,6 +207,10 @@ func GenC09(tape *Tape, allowSleep bool) *C09Prog {
 		src.WriteString("func init() {\n\tfor i := 0; i < 3; i++ {\n\t\thost.Tick(701)\n\t}\n}\n\n")
 	}
 	src.WriteString(g.decl.String())
-	fmt.Fprintf(&src, "func main() {\n\thost.Tick(800)\n\tactor%d()\n\thost.Tick(801)\n}\n", root)
+	if withImport {
+		fmt.Fprintf(&src, "func main() {\n\thost.Tick(800 + dep.F(0))\n\tactor%d()\n\thost.Tick(801)\n}\n", root)
+	} else {
+		fmt.Fprintf(&src, "func main() {\n\thost.Tick(800)\n\tactor%d()\n\thost.Tick(801)\n}\n", root)
+	}
 	return &C09Prog{Src: src.String(), Desc: fmt.Sprintf("init=%d %s", initKind, strings.Join(g.desc, " ")), Bodies: g.bodies, BodyOf: g.bodyOf, Init: initKind, Sleeps: g.sleeps}
 }
